@@ -39,6 +39,8 @@ GH_EXTERN double GLV[2 * 22];        /* per LP mutator: value(s) handed over */
 GH_EXTERN const double* GLP[2 * 22]; /* per LP mutator: vector(s) handed over (identity) */
 #define GL_p1(m) GLP[2 * (m)]
 #define GL_p2(m) GLP[2 * (m) + 1]
+GH_EXTERN int g_eq_calls;           /* EQ(a, b, eps) consulted / its last verdict */
+GH_EXTERN int g_eq_res;
 GH_EXTERN long long g_tag;           /* identity of the LPRow / LPCol handed to changeRow / changeCol */
 /* change{Lhs,Rhs,Lower,Upper}Status(i, new, old): calls, i of the last call, calls with i == g_k, clock of first call, clock of last call */
 GH_EXTERN int GS0[5]; GH_EXTERN int GS1[5]; GH_EXTERN int GS2[5]; GH_EXTERN int GS3[5];
